@@ -334,6 +334,9 @@ pub fn prune(n: &N, keep: &dyn Fn(&N) -> bool, attr_ok: &dyn Fn(&str) -> bool) -
         for k in ks {
             if let N::Elem { .. } = k {
                 if !keep(k) {
+                    // Deleting a node from a DOM does not merge its neighbours.  A comment (which the renderer
+                    // ignores) stands where the subtree was, so that a re-parse keeps the text nodes apart too.
+                    out.push(N::Comment);
                     continue;
                 }
             }
